@@ -166,6 +166,6 @@ def loadTopic (r : TopicRow) : Topic :=
   -- the owner is the last subscriber (in load order) whose effective mode has O
   let owner := live.foldl (fun o s => if isOwner (s.want &&& s.given) then s.user else o) ""
   { name := r.name, lastId := r.seq, delId := r.del, owner := owner, auth := r.auth, anon := r.anon, pub := r.pub, tr := r.tr,
-    tags := r.tags, perUser := perUser, hasSupd := true }
+    tags := r.tags, perUser := perUser, hasSupd := true, isChan := r.chan }
 
 end Tinode.World
